@@ -7,8 +7,9 @@ Translated (each python function becomes one Gallina definition `gen_<class>_<me
                                                                 column, held in a pandas Series)
   _divide, Var._compute_result                                  both paths
   accumulator, diff_expanding                                   generic in the aggregation / batch type
-The hand-written models are DF/Agg.v (C06, C12) and DF/Window.v (C07); Base/BridgeAggs.v and Base/BridgeAggsWindow.v
-prove `generated = model` (repaired variant), and the property files restate those lemmas (harness/mkprops_aggs.py), so an
+  diff_iloc                                                     the `while n > 0` loop as recursion on explicit fuel
+The hand-written models are DF/Agg.v (C06, C12) and DF/Window.v (C07); Base/BridgeAggs.v, BridgeAggsVec.v (DF/Agg.v),
+BridgeAggsWindow.v and BridgeAggsIloc.v (DF/Window.v) prove `generated = model` (repaired variant), and the property files restate those lemmas (harness/mkprops_aggs.py), so an
 edit of one of these classes changes a generated file and a proof in the cone stops checking.
 
 HOW.  Symbolic execution of the python AST.  A store maps every local to a typed symbolic value (a Gallina term over the
@@ -18,7 +19,12 @@ runs the rest of the function once per branch and joins the two results with a c
 tuples (so `if c: ... else: ...`, its inversion, early `return`s and conditional expressions give terms the bridges split
 the same way); calls of `_divide` / `self._compute_result` / any module level helper are inlined; tests whose value the
 path fixes (`isinstance(x, Number)`) are folded with python's short-circuit rule and the dead branch is not looked at.
-Anything else - a loop, an unknown method or attribute, a keyword argument, a value used at the wrong type, the truth
+A `while` loop (one per function, not nested) becomes a separate recursive definition `<name>_loop` on explicit fuel over the
+loop-carried variables - the locals the body rebinds or updates in place, in textual order of the first such place; the
+rest of the enclosing function is the loop's exit; `dfs[0]` / `dfs.popleft()` on a deque held by a loop variable split the
+path on empty / non-empty (empty = python's IndexError = None).  The fuel is `2 + number of frames in the first carried
+list at loop entry`; the bridge proves it suffices.
+Anything else - another loop form, an unknown method or attribute, a keyword argument, a value used at the wrong type, the truth
 value of a Series, ... - raises KernelError: the generated file is replaced by one that does not compile and every property
 whose cone contains the bridge reports the obligation as broken.
 
@@ -67,6 +73,10 @@ MAPPING = """\
     self.ddof                                 the parameter ddof : Z
     acc is None (accumulator)                 acc : option S is None
     deque(l)  l.append(x)  []                 the list l, l ++ [x], []   (only on a local that holds a fresh copy)
+    l[0]  l.popleft()  l[0] = x               head / tail / replaced head of a non-empty list; on an empty one: IndexError (None)
+    len(l)   sum(map(len, l))                 Z.of_nat (length l),  p_total P l
+    s.iloc[:n]   s.iloc[n:]                   p_take P n s,  p_drop P n s      accepted only where the path has 0 < n
+    while c: body                             recursion on fuel (see above); out of fuel = None
     agg.initial(new)  agg.on_new(acc, new)    the parameters agg_initial, agg_on_new of gen_accumulator
   not modelled: float rounding, dtypes, index / column labels, warnings, exceptions other than the division gate above."""
 
@@ -118,8 +128,9 @@ class Sc:
     """a Gallina term of a non-tuple type.  For booleans `b` keeps the structure of the test:
     ('atom',) | ('const', bool) | ('not', c) | ('and', [c..]) | ('or', [c..])"""
 
-    def __init__(self, ty, term, b=None):
+    def __init__(self, ty, term, b=None, cons=None, var=False):
         self.ty, self.term, self.b = ty, term, b if b is not None else ("atom",)
+        self.cons, self.var = cons, var        # lists: (head term, tail term) when known non-empty; a loop binder
 
 
 class Tup:
@@ -141,6 +152,33 @@ class Ser:
 
 class NoneV:
     ty = "None"
+
+
+class Opt:
+    """the value of a path through a loop: a Gallina term of type `option R` (None = IndexError / out of fuel)"""
+    ty = "option"
+
+    def __init__(self, term, rty=None):
+        self.term, self.rty = term, rty
+
+
+class NeedSplit(Exception):
+    """the head of a list held by a loop binder is needed: the statement is re-run in the non-empty case"""
+
+    def __init__(self, name):
+        Exception.__init__(self, name)
+        self.name = name
+
+
+LIST_S = ("L", "S")
+
+
+def mk_list(term, cons=None, var=False):
+    return Sc(LIST_S, term, b=("fresh",), cons=cons, var=var)
+
+
+def is_list(v):
+    return isinstance(v, Sc) and v.ty == LIST_S
 
 
 class Obj:
@@ -208,6 +246,10 @@ class Tr:
     def __init__(self, module, path, what):
         self.module, self.path, self.what = module, path, what
         self.depth = 0
+        self.loops = []                  # lambda-lifted loops: (name, binder declarations, result type, body term)
+        self.outer = None                # (binder names, binder declarations) of the enclosing definition
+        self.fresh_k = 0
+        self.in_loop = False
 
     # ---------------------------------------------------------------------------------------------------- errors
     def err(self, text, node=None):
@@ -248,7 +290,20 @@ class Tr:
         self.err("the result has type %s where %s is expected" % (self.show_ty(v), ty), node)
 
     # ---------------------------------------------------------------------------------------------------- joins
+    def lift(self, v, node=None):
+        """a value as a term of type option R"""
+        if isinstance(v, Opt):
+            return v.term
+        if isinstance(v, (Tup, Sc)):
+            return "(Some %s)" % render(v)
+        self.err("a path through the loop yields %s" % self.show_ty(v), node)
+
     def mkif(self, c, a, b, node=None):
+        if isinstance(a, Opt) or isinstance(b, Opt):
+            rty = a.rty if isinstance(a, Opt) and a.rty is not None else (b.rty if isinstance(b, Opt) else None)
+            if rty is None:
+                rty = (b if isinstance(a, Opt) else a).ty if not (isinstance(a, Opt) and isinstance(b, Opt)) else None
+            return Opt("(if %s then %s else %s)" % (c.term, self.lift(a, node), self.lift(b, node)), rty)
         if isinstance(a, Tup) and isinstance(b, Tup) and len(a.items) == len(b.items):
             return Tup([self.mkif(c, x, y, node) for x, y in zip(a.items, b.items)])
         if isinstance(a, NoneV) and isinstance(b, NoneV):
@@ -510,7 +565,24 @@ class Tr:
                 v = self.expr(e.value.value, env, facts)
                 if isinstance(v, Ser) and not v.sq and ast.unparse(e.slice) in (":0", "0:0"):
                     return Ser("(%s P %s)" % ("p_empty" if self.path == "s" else "v_empty", v.term))
+                sl = e.slice
+                if isinstance(v, Ser) and not v.sq and self.path == "s" and isinstance(sl, ast.Slice) and sl.step is None \
+                        and (sl.lower is None) != (sl.upper is None):
+                    n = self.expr(sl.upper if sl.lower is None else sl.lower, env, facts)
+                    if not (isinstance(n, Sc) and n.ty == "Z"):
+                        self.err("slice bound of type %s" % self.show_ty(n), e)
+                    if ("(%s <? %s)%%Z" % ("(0)%Z", n.term), True) not in facts:
+                        self.err("slice %s: the bound is not known to be positive on this path (a negative bound counts from "
+                                 "the end)" % src, e)
+                    return Ser("(%s P %s %s)" % ("p_take" if sl.lower is None else "p_drop", n.term, v.term))
                 self.err("subscript %s" % src, e)
+            if isinstance(e.value, ast.Name) and is_list(env.get(e.value.id)) and isinstance(e.slice, ast.Constant) and e.slice.value == 0:
+                lst = env[e.value.id]
+                if lst.cons is not None:
+                    return Ser(lst.cons[0])
+                if lst.var:
+                    raise NeedSplit(e.value.id)
+                self.err("%s[0]: the list is not known to be non-empty" % e.value.id, e)
             v = self.expr(e.value, env, facts)
             if isinstance(v, Tup) and isinstance(e.slice, ast.Constant) and isinstance(e.slice.value, int) \
                     and -len(v.items) <= e.slice.value < len(v.items):
@@ -532,7 +604,16 @@ class Tr:
                 v = self.expr(e.args[0], env, facts)
                 if isinstance(v, Ser) and not v.sq:
                     return Sc("Z", "(%s P %s)" % ("p_len" if self.path == "s" else "v_len", v.term))
+                if is_list(v):
+                    return Sc("Z", "(Z.of_nat (length %s))" % v.term)
                 self.err("len of %s" % self.show_ty(v), e)
+            if f.id == "sum" and len(e.args) == 1 and isinstance(e.args[0], ast.Call) and ast.unparse(e.args[0].func) == "map" \
+                    and len(e.args[0].args) == 2 and ast.unparse(e.args[0].args[0]) == "len" and not e.args[0].keywords \
+                    and "map" not in env and "len" not in env and self.path == "s":
+                v = self.expr(e.args[0].args[1], env, facts)
+                if is_list(v):
+                    return Sc("Z", "(p_total P %s)" % v.term)
+                self.err("sum(map(len, ..)) of %s" % self.show_ty(v), e)
             if f.id == "isinstance" and len(e.args) == 2 and ast.unparse(e.args[1]) in ("Number", "numbers.Number"):
                 v = self.expr(e.args[0], env, facts)
                 if isinstance(v, Sc) and v.ty in SCALARS:
@@ -543,7 +624,7 @@ class Tr:
             if f.id in ("deque", "list") and len(e.args) == 1:
                 v = self.expr(e.args[0], env, facts)
                 if isinstance(v, Sc) and isinstance(v.ty, tuple) and v.ty[0] == "L":
-                    return Sc(v.ty, v.term, b=("fresh",))
+                    return Sc(v.ty, v.term, b=("fresh",), cons=v.cons)
                 self.err("%s(..) of %s" % (f.id, self.show_ty(v)), e)
             if f.id == "float" and len(e.args) == 1:
                 v = self.expr(e.args[0], env, facts)
@@ -641,22 +722,100 @@ class Tr:
                 return
         self.err("assignment target %s" % ast.unparse(tgt), node)
 
-    def block(self, stmts, env, facts):
-        """-> the value returned (NoneV when the end is reached)"""
+    def fresh(self, base):
+        self.fresh_k += 1
+        return "%s%d" % (base, self.fresh_k)
+
+    def assigned_in(self, stmts):
+        """python names bound or updated in place by these statements, in textual order of the first such place"""
+        found = []
+        for st in stmts:
+            for n in ast.walk(st):
+                if isinstance(n, (ast.Assign, ast.AugAssign)):
+                    for t in (n.targets if isinstance(n, ast.Assign) else [n.target]):
+                        for x in ast.walk(t):
+                            if isinstance(x, ast.Name):
+                                found.append((x.lineno, x.col_offset, x.id))
+                if isinstance(n, ast.Call) and isinstance(n.func, ast.Attribute) and isinstance(n.func.value, ast.Name) \
+                        and n.func.attr in ("append", "popleft", "pop", "appendleft", "extend", "clear", "insert", "remove"):
+                    found.append((n.func.value.lineno, n.func.value.col_offset, n.func.value.id))
+        out = []
+        for _, _, name in sorted(found):
+            if name not in out:
+                out.append(name)
+        return out
+
+    def popleft(self, name, env, node):
+        lst = env.get(name)
+        if not (is_list(lst) and lst.b == ("fresh",)):
+            self.err("popleft on %s, which is not a local holding a fresh list" % name, node)
+        if lst.cons is None:
+            if lst.var:
+                raise NeedSplit(name)
+            self.err("%s.popleft(): the list is not known to be non-empty" % name, node)
+        h, t = lst.cons
+        env[name] = mk_list(t, var=bool(re.fullmatch(r"\w+", t)))
+        return Ser(h)
+
+    def block(self, stmts, env, facts, cont=None):
+        """-> the value returned (at the end of the statements: cont(env), NoneV without a continuation)"""
         env = dict(env)
         for i, s in enumerate(stmts):
             rest = list(stmts[i + 1:])
+            try:
+                r = self.stmt(s, rest, env, facts, cont)
+            except NeedSplit as ns:
+                lst = env[ns.name]
+                h, t = self.fresh(lst.term + "_h"), self.fresh(lst.term + "_t")
+                env2 = dict(env)
+                env2[ns.name] = mk_list("(%s :: %s)" % (h, t), cons=(h, t))
+                some = self.block(list(stmts[i:]), env2, facts, cont)
+                # an empty deque: IndexError
+                return Opt("(match %s with [] => None | %s :: %s => %s end)" % (lst.term, h, t, self.lift(some, s)),
+                           some.rty if isinstance(some, Opt) else getattr(some, "ty", None))
+            if r is not None:
+                return r
+        return NoneV() if cont is None else cont(env)
+
+    def stmt(self, s, rest, env, facts, cont):
+        """one statement; updates env in place and returns None, or returns the value of the whole remaining block"""
+        if True:
             if isinstance(s, ast.Pass) or (isinstance(s, ast.Expr) and isinstance(s.value, ast.Constant)):
-                continue
+                return None
             if isinstance(s, ast.Return):
                 return NoneV() if s.value is None else self.expr(s.value, env, facts)
+            if isinstance(s, ast.Assign) and len(s.targets) == 1 and isinstance(s.targets[0], ast.Name) and isinstance(s.value, ast.Call) \
+                    and isinstance(s.value.func, ast.Attribute) and s.value.func.attr == "popleft" and isinstance(s.value.func.value, ast.Name) \
+                    and not s.value.args and not s.value.keywords:
+                env[s.targets[0].id] = self.popleft(s.value.func.value.id, env, s)
+                return None
+            if isinstance(s, ast.Expr) and isinstance(s.value, ast.Call) and isinstance(s.value.func, ast.Attribute) \
+                    and s.value.func.attr == "popleft" and isinstance(s.value.func.value, ast.Name) and not s.value.args and not s.value.keywords:
+                self.popleft(s.value.func.value.id, env, s)
+                return None
+            if isinstance(s, ast.Assign) and len(s.targets) == 1 and isinstance(s.targets[0], ast.Subscript) \
+                    and isinstance(s.targets[0].value, ast.Name) and is_list(env.get(s.targets[0].value.id)) \
+                    and isinstance(s.targets[0].slice, ast.Constant) and s.targets[0].slice.value == 0:
+                name = s.targets[0].value.id                     # dfs[0] = <batch>
+                x = self.expr(s.value, env, facts)
+                lst = env[name]
+                if not (isinstance(x, Ser) and not x.sq):
+                    self.err("%s[0] = %s" % (name, self.show_ty(x)), s)
+                if lst.b != ("fresh",):
+                    self.err("%s[0] = ...: not a local holding a fresh list" % name, s)
+                if lst.cons is None:
+                    if lst.var:
+                        raise NeedSplit(name)
+                    self.err("%s[0] = ...: the list is not known to be non-empty" % name, s)
+                env[name] = mk_list("(%s :: %s)" % (x.term, lst.cons[1]), cons=(x.term, lst.cons[1]))
+                return None
             if isinstance(s, ast.Assign):
                 v = self.expr(s.value, env, facts)
                 if isinstance(s.value, ast.Name) and isinstance(v, Sc) and isinstance(v.ty, tuple) and v.ty[0] == "L":
                     self.err("a second name for a list (a later append would be seen through both)", s)
                 for tgt in s.targets:
                     self.assign(tgt, v, env, s)
-                continue
+                return None
             if isinstance(s, ast.AugAssign):
                 if not isinstance(s.target, ast.Name):
                     self.err("augmented assignment to %s" % ast.unparse(s.target), s)
@@ -673,7 +832,7 @@ class Tr:
                 else:
                     v = self.binop(s.op, self.expr(s.target, env, facts), self.expr(s.value, env, facts), facts, s)
                 self.assign(s.target, v, env, s)
-                continue
+                return None
             if isinstance(s, ast.Expr) and isinstance(s.value, ast.Call) and isinstance(s.value.func, ast.Attribute) \
                     and s.value.func.attr == "append" and isinstance(s.value.func.value, ast.Name) \
                     and len(s.value.args) == 1 and not s.value.keywords:
@@ -684,8 +843,12 @@ class Tr:
                     self.err("append to %s, which is not a local holding a fresh list" % name, s)
                 if not (isinstance(x, Ser) and not x.sq and lst.ty[1] == "S"):
                     self.err("append of %s to a list of batches" % self.show_ty(x), s)
-                env[name] = Sc(lst.ty, "(%s ++ [%s])" % (lst.term, x.term), b=("fresh",))
-                continue
+                if lst.cons is not None:
+                    t2 = "(%s ++ [%s])" % (lst.cons[1], x.term)
+                    env[name] = mk_list("(%s :: %s)" % (lst.cons[0], t2), cons=(lst.cons[0], t2))
+                else:
+                    env[name] = mk_list("(%s ++ [%s])" % (lst.term, x.term))
+                return None
             if isinstance(s, ast.If):
                 nt = self.none_test(s.test, env)
                 if nt is not None:
@@ -695,17 +858,75 @@ class Tr:
                     e_none, e_some = dict(env), dict(env)
                     e_none[name] = NoneV()
                     e_some[name] = Sc(opt.ty[1], var)
-                    a = self.block(list(s.body if none_first else s.orelse) + rest, e_none, facts)
-                    b = self.block(list(s.orelse if none_first else s.body) + rest, e_some, facts)
+                    a = self.block(list(s.body if none_first else s.orelse) + rest, e_none, facts, cont)
+                    b = self.block(list(s.orelse if none_first else s.body) + rest, e_some, facts, cont)
                     return self.mkmatch(opt.term, var, a, b, s)
                 c = self.truth(self.expr(s.test, env, facts), s.test)
                 if is_const(c):
-                    return self.block(list(s.body if c.b[1] else s.orelse) + rest, env, facts)
-                a = self.block(list(s.body) + rest, env, facts + implied(c, True))
-                b = self.block(list(s.orelse) + rest, env, facts + implied(c, False))
+                    return self.block(list(s.body if c.b[1] else s.orelse) + rest, env, facts, cont)
+                a = self.block(list(s.body) + rest, env, facts + implied(c, True), cont)
+                b = self.block(list(s.orelse) + rest, env, facts + implied(c, False), cont)
                 return self.mkif(c, a, b, s)
+            if isinstance(s, ast.While):
+                return self.loop(s, rest, env, facts, cont)
             self.err("statement form %s: %s" % (type(s).__name__, ast.unparse(s).split("\n")[0]), s)
-        return NoneV()
+
+    def loop(self, s, rest, env, facts, cont):
+        """`while c: body` followed by `rest`: a recursive function on explicit fuel over the variables the body updates
+        (loop-carried, in order of appearance in the body, so that renaming them changes nothing).  One call = the test, then
+        either one run of the body ending in the recursive call, or the rest of the enclosing function (the exit)."""
+        if s.orelse or self.outer is None or self.in_loop:
+            self.err("loop form not supported (else clause / a loop inside a loop / no enclosing definition)", s)
+        if any(isinstance(n, (ast.Break, ast.Continue)) for n in ast.walk(s)):
+            self.err("break / continue in a loop", s)
+        carried = [n for n in self.assigned_in(s.body) if n in env]
+        if not carried:
+            self.err("the loop updates nothing", s)
+        name = "%s_loop" % self.outer[2]
+        binders, decls, init = [], [], []
+        env2 = dict(env)
+        for k, n in enumerate(carried):
+            v0, w = env[n], "w%d" % k
+            if is_list(v0) and v0.b == ("fresh",):
+                env2[n] = mk_list(w, var=True)
+            elif isinstance(v0, Sc) and v0.ty in ("Z", "Q"):
+                env2[n] = Sc(v0.ty, w)
+            else:
+                self.err("loop-carried variable %s holds %s" % (n, self.show_ty(v0)), s)
+            binders.append(w)
+            decls.append("(%s : %s)" % (w, ty_coq(v0.ty, self.path)))
+            init.append(v0.term)
+        lists = [v for v in (env[n] for n in carried) if is_list(v)]
+        if not lists:
+            self.err("no list among the loop-carried variables: no fuel", s)
+        try:
+            c = self.truth(self.expr(s.test, env2, facts), s.test)
+        except NeedSplit:
+            self.err("the loop test needs the head of a list", s)
+        if is_const(c):
+            self.err("constant loop test", s)
+        call = "(%s %s fuel %%s)" % (name, " ".join(self.outer[0]))
+        saved_k, self.fresh_k = self.fresh_k, 0
+        self.in_loop = True
+
+        def recur(envx):
+            return Opt(call % " ".join(envx[n].term for n in carried))
+        body = self.block(list(s.body), env2, facts + implied(c, True), recur)
+        exit_ = self.block(rest, env2, facts + implied(c, False), cont)
+        rty = exit_.rty if isinstance(exit_, Opt) else getattr(exit_, "ty", None)
+        if rty is None or rty == "None":
+            self.err("the code after the loop returns nothing", s)
+        term = "(if %s then %s else %s)" % (c.term, self.lift(body, s), self.lift(exit_, s))
+        self.in_loop = False
+        self.fresh_k = saved_k
+        # the rest of the function is translated once per path that reaches the loop: the same loop every time
+        if self.loops and self.loops[0] != (name, decls, rty, term):
+            self.err("a second, different loop", s)
+        self.loops = [(name, decls, rty, term)]
+        # every run of the body either removes a frame from the first list or makes the test false next time: the
+        # bridge lemma proves that this fuel is enough
+        fuel = "(S (S (length %s)))" % lists[0].term
+        return Opt("(%s %s %s %s)" % (name, " ".join(self.outer[0]), fuel, " ".join(init)), rty)
 
 
 # ----------------------------------------------------------------------------------------------------------- schema
@@ -732,7 +953,7 @@ SCHEMA = [
                        "v": ([T("VQ", "VQ", "VZ"), S_], T(T("VQ", "VQ", "VZ"), "VF"), {"ddof": "Z"})}),
     ("Var", "initial", {"s": ([S_], T("Q", "Q", "Z"), {}), "v": ([S_], T("VQ", "VQ", "VZ"), {})}),
 ]
-FILES = ["KA_Sum", "KA_Count", "KA_Size", "KA_Mean", "KA_Var", "KA_Accumulator"]
+FILES = ["KA_Sum", "KA_Count", "KA_Size", "KA_Mean", "KA_Var", "KA_Accumulator", "KA_DiffIloc"]
 ORDER = FILES
 
 HEADER = """(* GENERATED by harness/gen_aggs.py from streamz/dataframe/aggregations.py of the source under test, on every run - do not edit.
@@ -868,6 +1089,40 @@ def gen_diff_expanding(module):
             % (src, render(res)))
 
 
+def strip_docstring(fn):
+    fn = ast.parse(ast.unparse(fn)).body[0]
+    fn.body = body_src(fn) or [ast.Pass()]
+    return ast.unparse(fn)
+
+
+def gen_diff_iloc(module):
+    """diff_iloc(dfs, new, window): the `while n > 0` loop becomes a recursive function on explicit fuel"""
+    fns = [n for n in module.body if isinstance(n, ast.FunctionDef) and n.name == "diff_iloc"]
+    if len(fns) != 1:
+        raise KernelError("diff_iloc: function not found")
+    fn = fns[0]
+    params = [a.arg for a in fn.args.args]
+    if len(params) != 3 or fn.args.vararg or fn.args.kwarg or fn.args.kwonlyargs or fn.decorator_list:
+        raise KernelError("diff_iloc: signature (dfs, new, window=None) expected")
+    tr = Tr(module, "s", "diff_iloc")
+    decl = "(P : pd_ops) (a0 : list (ser P)) (a1 : ser P) (a2 : Z)"
+    tr.outer = (["P", "a0", "a1", "a2"], decl, "gen_diff_iloc")
+    env = {params[0]: Sc(LIST_S, "a0"), params[1]: Ser("a1"), params[2]: Sc("Z", "a2")}
+    res = tr.block(body_src(fn), env, [])
+    rty = T(LIST_S, LIST_S)
+    if not (isinstance(res, Opt) and res.rty == rty) or len(tr.loops) != 1:
+        raise KernelError("diff_iloc: expected one loop and a pair of lists of batches as the result")
+    name, decls, lrty, term = tr.loops[0]
+    if lrty != rty:
+        raise KernelError("diff_iloc: the loop does not end in the function's result")
+    src = "\n".join("     " + l for l in cq(strip_docstring(fn)).split("\n"))
+    rt = ty_coq(rty, "s")
+    return ("(* diff_iloc\n%s\n   The loop: recursion on fuel; one call = the test, then one run of the body or the exit.  None = IndexError\n"
+            "   (head of an empty deque) or out of fuel; the bridge proves that neither happens. *)\n"
+            "Fixpoint %s %s (fuel : nat) %s {struct fuel} : option %s :=\n  match fuel with\n  | O => None\n  | S fuel =>\n    %s\n  end.\n\n"
+            "Definition gen_diff_iloc %s : option %s :=\n  %s.\n" % (src, name, decl, " ".join(decls), rt, term, decl, rt, res.term))
+
+
 def generate_all(module, paths=("s", "v")):
     """-> {file stem: (text or None, error or None)}"""
     res = {}
@@ -890,6 +1145,10 @@ def generate_all(module, paths=("s", "v")):
         res["KA_Accumulator"] = (head + "\n" + gen_accumulator(module) + "\n" + gen_diff_expanding(module), None)
     except KernelError as e:
         res["KA_Accumulator"] = (None, str(e))
+    try:
+        res["KA_DiffIloc"] = (head + "\n" + gen_diff_iloc(module), None)
+    except KernelError as e:
+        res["KA_DiffIloc"] = (None, str(e))
     return res
 
 
